@@ -57,11 +57,12 @@ def spec_strategy():
 
 def strategy():
     return st.fixed_dictionaries({'spec': spec_strategy(), 'route': st.sampled_from(['from_dict', 'generic_from_dict', 'save_load', 'json']),
-                                  'trips': st.integers(1, 3), 'seed': S.SEEDS, 'probe_seed': S.SEEDS})
+                                  'trips': st.integers(1, 3), 'seed': S.SEEDS, 'probe_seed': S.SEEDS,
+                                  'prefit_seed': st.one_of(st.none(), st.none(), S.SEEDS)})
 
 
-def build_and_fit(spec, seed):
-    """Returns (model, probes, fitted_ok)."""
+def build_and_fit(spec, seed, prefit_seed=None):
+    """Returns (model, probes, fitted_ok).  With prefit_seed the same object is first fitted on other data (and used)."""
     kind = spec['kind']
     np.random.seed(seed % (2 ** 32))
     rs = np.random.RandomState(seed)
@@ -72,6 +73,10 @@ def build_and_fit(spec, seed):
         span = (hi - lo) or max(abs(lo), 1.0)
         probes = {'x': (lo + rs.uniform(-0.3, 1.3, size=9) * span).tolist() + [lo, hi], 'q': [0.0, 1e-9, 0.01, 0.3, 0.5, 0.77, 0.99, 1 - 1e-9, 1.0]}
         if spec['fitted']:
+            if prefit_seed is not None:
+                rs0 = np.random.RandomState(prefit_seed)
+                call(model.fit, rs0.normal(size=40) * 3.0 + 50.0, allow=(Exception,))
+                call(lambda: (model.cdf(np.array([50.0])), model.sample(2)), allow=(Exception,))
             k, e = call(model.fit, data.copy(), allow=(Exception,))
             if k == 'exc':
                 return None, None, False
@@ -81,6 +86,10 @@ def build_and_fit(spec, seed):
         probes = {'X': np.clip(rs.uniform(size=(8, 2)), 1e-3, 1 - 1e-3).tolist()}
         if spec['fitted']:
             X = c10.build(spec['data'])
+            if prefit_seed is not None:
+                U0 = np.random.RandomState(prefit_seed).uniform(size=(40, 1))
+                call(model.fit, np.column_stack((U0[:, 0], np.clip(U0[:, 0] ** 2 + 0.01, 0, 1))), allow=(Exception,))
+                call(model.sample, 2, allow=(Exception,))
             k, e = call(model.fit, X.copy(), allow=(ValueError,))
             if k == 'exc':
                 return None, None, False
@@ -92,6 +101,10 @@ def build_and_fit(spec, seed):
         rows = X[rs.randint(0, len(X), size=5)] + rs.normal(size=(5, X.shape[1])) * 0.1 * (np.std(X, axis=0) + 1e-12)
         probes = {'rows': rows.tolist()}
         if spec['fitted']:
+            if prefit_seed is not None:
+                other = M.variant_table(df, prefit_seed)
+                value(model.fit, other, what='GaussianMultivariate.fit (earlier table)')
+                call(lambda: (model.pdf(other.head(2)), model.sample(2), model.sample(2, conditions={other.columns[0]: float(other.iloc[0, 0])})), allow=(Exception,))
             value(model.fit, df.copy(), what='GaussianMultivariate.fit')
         return model, probes, True
     if kind == 'vine':
@@ -100,7 +113,7 @@ def build_and_fit(spec, seed):
         df = c16.build(spec)
         probes = {'u': np.clip(rs.uniform(size=df.shape[1]), 0.02, 0.98).tolist(), 'n_sample': 2}
         if spec['fitted']:
-            model, k, e = c16.fit_vine(spec, df)
+            model, k, e = c16.fit_vine(dict(spec, prefit_seed=prefit_seed), df)
             if k == 'exc':
                 return None, None, False
         else:
@@ -139,8 +152,10 @@ def oracle(case):
 
     spec, route = case['spec'], case['route']
     kind = spec['kind']
-    model, probes, ok = build_and_fit(spec, case['seed'])
+    model, probes, ok = build_and_fit(spec, case['seed'], case.get('prefit_seed'))
     cls = ['kind:' + kind, 'route:' + route, 'fitted' if spec['fitted'] else 'unfitted']
+    if spec['fitted'] and case.get('prefit_seed') is not None:
+        cls.append('refitted-model')
     if not ok:
         return {'nontrivial': False, 'classes': cls + ['fit-rejected']}
     if route == 'json' and kind == 'vine':
